@@ -56,6 +56,7 @@ class UnitModel:
             E.call(f["id"], None, [lv])
             term = E.load(lv)
             a = affine.affine_of(term, "v", self.numeric)
+            a.term = term
             self._conv[key] = (a, f, ev.show(term))
         except Inconclusive as x:
             self._conv[key] = (None, f, "inconclusive: %s" % x)
